@@ -95,6 +95,14 @@ class _RecFile:
         # what the program writes sits in the file object's buffer; it reaches the disk (in the
         # model) only when Python hands it to the OS: buffer full, flush() or close()
         b = data.encode(self._real.encoding or "utf-8") if self._text else bytes(data)
+        hit = self._rec.interrupt
+        if hit is not None and self._rel.endswith(hit[0]) and not hit[2]:
+            # exception-style interruption (Ctrl-C, SIGTERM handler, disk full): part of the data goes out, then the write raises
+            hit[2] = True
+            part = data[: max(1, min(hit[1], len(data) - 1))] if len(data) > 1 else data
+            self._real.write(part)
+            self._real.flush()
+            raise KeyboardInterrupt("interrupted save")
         self._pending += b
         if len(self._pending) >= 8192:
             self._emit()
@@ -130,9 +138,11 @@ class _RecFile:
         return getattr(self._real, name)
 
 
-def record_close(project, ropedir):
-    """run project.close() with the save path instrumented; returns the event list"""
+def record_close(project, ropedir, interrupt=None):
+    """run project.close() with the save path instrumented; returns the event list.
+    interrupt = [file name suffix, bytes to let through, False]: the first write to that file raises KeyboardInterrupt"""
     rec = _Rec(ropedir)
+    rec.interrupt = interrupt
     real_open, real_io_open = builtins.open, io.open
     real_replace, real_rename, real_remove, real_unlink = os.replace, os.rename, os.remove, os.unlink
 
@@ -176,7 +186,11 @@ def record_close(project, ropedir):
     builtins.open = io.open = my_open
     os.replace, os.rename, os.remove, os.unlink = my_replace, my_rename, my_remove, my_remove
     try:
-        project.close()
+        try:
+            project.close()
+        except KeyboardInterrupt:
+            if interrupt is None:
+                raise
     finally:
         builtins.open, io.open = real_open, real_io_open
         os.replace, os.rename, os.remove, os.unlink = real_replace, real_rename, real_remove, real_unlink
@@ -232,6 +246,84 @@ def _observe(project):
     return _lists_data(project), _odb_image(project)
 
 
+def _rebuild(case, root):
+    """replay the case's history on a fresh directory up to (not including) the final close()"""
+    from props import c11_history as c11
+
+    fsmodel.write_tree(root, TREE)
+    project = _open(root)
+    old_obs = (([], []), {})
+    step = 0
+    tree_now = fsmodel.snapshot(root)
+    for op in case["ops"]:
+        step += 1
+        if op[0] == "do":
+            spec = c11._resolve_do(tree_now, op, step, allow_rm=False)
+            project.do(fsmodel.build_change(project, spec, tree_now))
+        elif op[0] == "undo" and project.history.undo_list:
+            project.history.undo()
+        elif op[0] == "redo" and project.history.redo_list:
+            project.history.redo()
+        elif op[0] == "analyze":
+            mods = [p for p in sorted(tree_now) if p.endswith(".py")]
+            project.pycore.analyze_module(project.get_file(mods[step % len(mods)]))
+        elif op[0] == "reopen":
+            old_obs = _observe(project)
+            project.close()
+            project = _open(root)
+        tree_now = fsmodel.snapshot(root)
+    return project, old_obs, _observe(project)
+
+
+def _interrupted_by_exception(case, out, old_obs, new_obs, empty_obs, pyfile):
+    """the save is interrupted by an exception raised inside a write (not a hard kill): whatever clean-up code runs while
+    the exception unwinds must not turn a partial file into the data file"""
+    from props.c12_reopen import type_exact_equal
+
+    for target, nbytes in (("history.tmp", 1), ("objectdb.tmp", 1), ("history.tmp", 40), ("history", 1), ("objectdb", 1)):
+        root = core.fresh_dir("c18x")
+        project = None
+        try:
+            project, old_obs, new_obs = _rebuild(case, root)
+            hit = [target, nbytes, False]
+            record_close(project, os.path.join(root, ".ropeproject"), interrupt=hit)
+            project = None
+            if not hit[2]:
+                continue  # that file is not written by this save
+            out.evals += 1
+            out.labels["exception_interruption"] += 1
+            sub = {"interrupted_write_to": target, "after_bytes": nbytes}
+            try:
+                p2 = _open(root)
+            except Exception as ex:
+                out.violation("C18:exception_interruption:open_raises:" + type(ex).__name__, "write to %s interrupted by an exception after %d byte(s): Project() raised %r" % (target, nbytes, ex), sub)
+                return
+            try:
+                try:
+                    obs = _observe(p2)
+                    p2.get_pymodule(p2.get_file(pyfile)).get_attributes()
+                except Exception as ex:
+                    out.violation("C18:exception_interruption:unreadable:" + type(ex).__name__, "write to %s interrupted by an exception after %d byte(s): %r" % (target, nbytes, ex), sub)
+                    return
+                if not any(type_exact_equal(obs[0], v[0]) for v in (old_obs, new_obs, empty_obs)) or not any(type_exact_equal(obs[1], v[1]) for v in (old_obs, new_obs, empty_obs)):
+                    out.violation("C18:exception_interruption:mixed_version", "write to %s interrupted after %d byte(s)" % (target, nbytes), sub)
+                    return
+            finally:
+                p2.data_files.hooks[:] = []
+                try:
+                    p2.close()
+                except Exception:
+                    pass
+        finally:
+            if project is not None:
+                project.data_files.hooks[:] = []
+                try:
+                    project.close()
+                except Exception:
+                    pass
+            core.rmtree(root)
+
+
 def evaluate(case, env):
     from props import c11_history as c11
     from props.c12_reopen import type_exact_equal
@@ -284,6 +376,7 @@ def evaluate(case, env):
         sdir = os.path.join(sroot, ".ropeproject")
         seen = set()
         pyfile = sorted(p for p in proj_files if p.endswith(".py"))[-1]
+        _interrupted_by_exception(case, out, old_obs, new_obs, empty_obs, pyfile)
         for e in range(len(events) + 1):
             base_state = apply_events(pre, events[:e])
             states = [(e, None, base_state)]
